@@ -360,8 +360,9 @@ class Q:
                 a, i = t.arg(0), t.arg(1)
                 if z3.is_const(a) and a.decl().kind() == z3.Z3_OP_UNINTERPRETED \
                         and z3.is_bv_value(i):
-                    sel[t.get_id()] = (t, z3.BitVec(
-                        f"sel!{a.decl().name()}!{i.as_long()}", t.size()))
+                    nm = f"sel!{a.decl().name()}!{i.as_long()}"
+                    sel[t.get_id()] = (t, z3.Bool(nm) if z3.is_bool(t)
+                                       else z3.BitVec(nm, t.size()))
                     return
             for c in t.children():
                 walk(c, seen)
